@@ -200,11 +200,17 @@ static void write_fx(vj::W& w, const FxList& fx) {
 // ---------------------------------------------------------------------------------------------------------------
 using x86forms::Inst; using x86forms::Opd;
 
+// records what the emitter hands to the ErrorHandler ("<error string>: <formatted instruction>[ ; comment]", EmitterUtils::log_instruction_failed)
+struct RecErrH : public ErrorHandler {
+  std::string msg; Error err = Error::kOk;
+  void handle_error(Error e, const char* m, BaseEmitter*) override { err = e; msg = m ? m : ""; }
+};
+
 struct XMode {
-  int bits = 64; Environment env; CodeHolder code; x86::Assembler* a = nullptr; StringLogger lg; Section* sec2 = nullptr;
+  int bits = 64; Environment env; CodeHolder code; x86::Assembler* a = nullptr; StringLogger lg; Section* sec2 = nullptr; RecErrH eh;
   void init(int b) { bits = b; env = Environment(b == 64 ? Arch::kX64 : Arch::kX86); reset(); }
   void reset() {
-    delete a; code.reset(); code.init(env);
+    delete a; code.reset(); code.init(env); code.set_error_handler(&eh);
     sec2 = nullptr; code.new_section(Out<Section*>(sec2), ".data2", SIZE_MAX, SectionFlags::kNone, 8);
     a = new x86::Assembler(&code);
     a->add_diagnostic_options(DiagnosticOptions::kValidateAssembler);
@@ -213,7 +219,7 @@ struct XMode {
 };
 
 static const uint8_t g_zeros[256] = {0};
-static long g_f = 0, g_l = 0, g_lm_f = 0, g_lm_l = 0;
+static long g_f = 0, g_l = 0, g_lm_f = 0, g_lm_l = 0, g_r = 0;
 
 // the request part of an observation: x86forms::write_request plus memory operands whose base is a label ("bt":"lb","lb":{label})
 static void x86_write_request(vj::W& w, const Inst& ob, const std::map<size_t, LabelDesc>& memlb) {
@@ -314,9 +320,24 @@ static bool x86_exec(XMode& md, Inst in, const XCfg& cfg, FILE* out, bool lmem_s
     if (in.k) a.set_extra_reg(x86::k(in.k)); else a.reset_extra_reg();
     md.lg.clear();
     size_t before = a.offset(), rb = md.code.reloc_entries().size();
+    md.eh.msg.clear(); md.eh.err = Error::kOk;
     Error e = a.emit_op_array(id, ops, n);
     size_t after = a.offset();
     a.reset_inst_options(); a.reset_extra_reg(); a.reset_inline_comment();
+    if (e != Error::kOk && !md.eh.msg.empty()) {
+      // ---- leg R: the REFUSED request as the emitter describes it to the ErrorHandler.  Only messages that carry an instruction text
+      // ("<error string>: <text>") are recorded; the text is formatted with FormatFlags::kRegType (log_instruction_failed).
+      std::string pre = std::string(DebugUtils::error_as_string(e)) + ": ";
+      if (md.eh.msg.compare(0, pre.size(), pre) == 0 && md.eh.msg.size() > pre.size()) {
+        std::string text = md.eh.msg.substr(pre.size()), cm;
+        if (!cfg.ic.empty()) { size_t q = text.rfind(" ; "); if (q != std::string::npos) { cm = trim(text.substr(q + 3)); text = text.substr(0, q); } }
+        vj::W w; begin(w, "R", 0x400);
+        w.kv("en", DebugUtils::error_as_string(e)).kv("tx", md.eh.msg);
+        write_tokens(w, "tk", lex(text));
+        w.kv("ic", cfg.ic).kv("cm", cm);
+        w.endObj(); w.emit(out); g_r++;
+      }
+    }
     if (e == Error::kOk) {
       ok = true;
       if (!held.empty()) { fputs(held.c_str(), out); fputc('\n', out); (lmem_stat ? g_lm_f : g_f)++; }
@@ -362,7 +383,7 @@ static int cmd_x86(int argc, char** argv) {
     for (const x86forms::FOp& fo : f.ops) if (fo.fld == "rm" && fo.msz >= 0 && fo.vsib.empty()) rm_mem = true;
     for (int pass = 0; pass < 2; pass++) {
       XMode& md = pass == 0 ? m64 : m32;
-      int lm = 0, lj = 0, cb_er = 0, cb_kz = 0, cb_lock = 0, cb_sl = 0, cb_enc = 0;
+      int lm = 0, lj = 0, cb_er = 0, cb_kz = 0, cb_lock = 0, cb_sl = 0, cb_enc = 0, cb_ref = 0;
       x86forms::instantiate(f, md.bits, rot + (pass ? 3 : 0), [&](Inst& in) {
         uint64_t h = mix(++ctr * 0x9E3779B97F4A7C15ull + seed + uint64_t(f.id) * 1315423911ull);
         // ---- label-based memory operand / label operand in every state, combined with the form's immediate (distinct non-zero bytes)
@@ -418,6 +439,16 @@ static int cmd_x86(int argc, char** argv) {
               variant(v, true);
             }
           }
+          if (evex_form && cb_ref < 2 * lm_rounds && (cb_ref % 2 == 0) == has_m) {       // requests the assembler must REFUSE while {k}{z} / options are pending
+            cb_ref++;
+            for (int t = 0; t < 3; t++) {
+              Inst v = in; v.k = t == 1 ? 7 : 2; v.z = t == 1 ? 1 : 0;
+              if (has_m && t < 2) { for (Opd& o : v.ops) if (o.t == 'm' && o.bt != "rip" && !o.bt.empty()) { o.it = o.bt; o.i = 4; o.sh = 0; break; } }   // rsp / esp as index
+              else if (t == 2) { v.opt |= O_LOCK; v.ops.push_back(R("gpd", 3)); }                                                             // lock + one operand too many
+              else { if (!f.er) v.er = 1; else { v.opt |= O_LOCK; } }                                                                          // {er} where the row has none / lock
+              variant(v, false);
+            }
+          }
           const uint32_t LOCKFAM[5] = {O_LOCK, O_XACQ, O_XREL, O_REP, O_REPNE};
           if ((f.lock && has_m && cb_lock < lm_rounds) || ((f.rep || f.repne) && cb_lock < lm_rounds)) {   // lock x xacquire/xrelease x rep/repne
             cb_lock++;
@@ -455,7 +486,7 @@ static int cmd_x86(int argc, char** argv) {
     }
   }
   fclose(out);
-  fprintf(stderr, "fmtobs x86: %llu instantiations, F=%ld L=%ld, label-reference / combination variants F=%ld L=%ld\n", (unsigned long long)ctr, g_f, g_l, g_lm_f, g_lm_l);
+  fprintf(stderr, "fmtobs x86: %llu instantiations, F=%ld L=%ld, label-reference / combination variants F=%ld L=%ld, refused-with-message R=%ld\n", (unsigned long long)ctr, g_f, g_l, g_lm_f, g_lm_l, g_r);
   return 0;
 }
 
